@@ -12,6 +12,7 @@ EXTENDS ExprRender, Json, IOUtils, TLCExt
 
 Input == JsonDeserialize(IOEnv.TRACE_FILE)
 Cases == Input.cases
+Envs == Input.envs            \* environments shared by all cases: [root, lst]
 Done == {Input.done[i] : i \in 1..Len(Input.done)}
 VARIABLES cid, done
 
@@ -22,7 +23,7 @@ RECURSIVE RunDiff(_, _, _)
 RunDiff(cs, runs, i) ==
     IF i > Len(runs) THEN [why |-> "", at |-> 0]
     ELSE LET r == runs[i]
-             m == Eval(cs.e, r.root, r.lst, Ctx0)
+             m == Eval(cs.e, Envs[r.ei].root, Envs[r.ei].lst, Ctx0)
              mm == [ok |-> m.ok, v |-> m.v, err |-> m.err]
          IN IF m.err = OutOfModel \/ (r.val.ok /\ r.val.v.t = "opaque") THEN RunDiff(cs, runs, i + 1)
             ELSE IF ~ResEq(mm, r.val) THEN [why |-> "eval", at |-> i]
